@@ -252,9 +252,21 @@ def rule_rescale(ctx):
     n = 0
     divs = {}
     logs = []
+    # pointer locals that name one element of the particle array (struct reb_particle* const p = &(particles[i]))
+    alias = {}
+    for d in walk(cfront.body(fn)):
+        if d.get('kind') == 'VarDecl' and 'init' in d and '*' in qtype(d):
+            init = [c for c in d.get('inner', []) if c.get('kind') not in ('FullComment',)]
+            t = render(init[-1]).replace(' ', '') if init else ''
+            m = re.match(r'^\(?&\(*((?:r\.)?particles\[[^\]]*\])\)*$', t)
+            if m:
+                alias[d['name']] = m.group(1)
     for e in walk(cfront.body(fn)):
         if is_assign(e):
             lv = render(e['inner'][0])
+            head = lv.split('.', 1)
+            if len(head) == 2 and head[0] in alias:
+                lv = alias[head[0]] + '.' + head[1]
             m = re.match(r'^(?:r\.)?particles\[.*\]\.(\w+)$', lv)
             if m and e['opcode'] in ('/=', '*='):
                 divs.setdefault(m.group(1), []).append((e['opcode'], render(e['inner'][1])))
@@ -445,9 +457,13 @@ def rule_rescale_integrator_state(ctx):
                     pk.setdefault(owner, set()).add(base['name'])
                 else:
                     divided.add(txt.split('.')[-1])
+    from . import extents
+    NV = extents.named_values(fn)
     for owner, ps in pk.items():
         if ps == {'p%d' % i for i in range(7)}:
             o = owner.replace('(', '').replace(')', '').replace('*', '').replace('&', '')
+            if o in NV:          # a local naming one entry of a table of blocks (dp7 = blocks[d])
+                o = NV[o].replace('(', '').replace(')', '').replace('*', '').replace('&', '')
             m_ = re.match(r'^(\w+)\[', o)
             if m_ and m_.group(1) in tables:
                 divided |= tables[m_.group(1)]
@@ -467,7 +483,7 @@ def rule_rescale_integrator_state(ctx):
         for d in walk(loops[0]['inner'][0]):
             if d.get('kind') == 'VarDecl' and 'init' in d:
                 ini = [c_ for c_ in d.get('inner', []) if c_.get('kind') not in ('FullComment',)]
-                start = render(ini[-1]).replace(' ', '').replace('(', '').replace(')', '')
+                start = extents.canon(extents.resolve(render(ini[-1]), {k_: v_ for k_, v_ in NV.items() if k_ != 'vc'}))
     if start != '3*vc.index':
         ctx.report('R16.7', 'rescale:ias15:range', where, 'the IAS15 state is not rescaled over the coordinates 3*index .. 3*(index+N) of the configuration')
     ctx.covered('R16.7', 'rescaling covers the integrator state that is linear in the variation: the %d arrays the IAS15 allocator sizes per coordinate are all divided by the same scale' % len(arrays | dp7s),
@@ -516,6 +532,13 @@ def rule_order_discriminated_members(ctx):
             written = {id(strip(a_['inner'][0])) for a_ in walk(cfront.body(fn)) if is_assign(a_) and a_['opcode'] == '='}
             from . import pathcond
             conds = pathcond.conditions(fn)
+            from . import extents as _ext
+            flags = _ext.named_values(fn)
+            in_flag = {}
+            for d_ in walk(cfront.body(fn)):
+                if d_.get('kind') == 'VarDecl' and 'init' in d_ and d_.get('name') in flags and 'int' in qtype(d_) and '*' not in qtype(d_):
+                    for x_ in walk(d_):
+                        in_flag[id(x_)] = d_['name']
             for e in walk(cfront.body(fn)):
                 if e.get('kind') != 'MemberExpr' or e['name'] not in partial or 'reb_variational_configuration' not in qtype(strip(e['inner'][0])):
                     continue
@@ -525,6 +548,11 @@ def rule_order_discriminated_members(ctx):
                 base = render(e['inner'][0]).replace(' ', '')
                 stack = conds.get(id(e), [])
                 guarded = any((base + '.order') in cnd.replace(' ', '') for cnd in stack)
+                if not guarded and id(e) in in_flag:
+                    # the read only computes a flag (const int uses = (wc->a == i || wc->b == i)): nothing is decided on it
+                    # until the flag is tested, so the test of `order` has to guard every use of the flag instead
+                    uses = [u for u in walk(cfront.body(fn)) if u.get('kind') == 'DeclRefExpr' and u['referencedDecl'].get('name') == in_flag[id(e)]]
+                    guarded = bool(uses) and all(any((base + '.order') in cnd.replace(' ', '') for cnd in conds.get(id(u), [])) for u in uses)
                 where = 'src/%s:%s %s' % (c, line_of(e), fname)
                 if not guarded:
                     ctx.report('R16.8', '%s:%s.%s' % (fname, base, e['name']), where,
